@@ -62,7 +62,7 @@ def native_replay(crate, hfile, test_text, timeout=900):
             "tail": "\n".join(out.strip().split("\n")[-25:])}
 
 
-def report_violation(pid, tier, crate, failed, out_text, prop):
+def report_violation(pid, tier, crate, failed, out_text, prop, flags_of=None):
     """Write replay files, try native replay, print VIOLATION lines. Returns count of violations."""
     rdir = os.path.join(VERIF, "replays", pid)
     os.makedirs(rdir, exist_ok=True)
@@ -95,9 +95,9 @@ def report_violation(pid, tier, crate, failed, out_text, prop):
         # counterexample from the verifier
         env = {"CARGO_TARGET_DIR": os.path.join(os.path.dirname(crate), "target")}
         cmd = ["cargo", "kani", "-Z", "function-contracts", "-Z", "stubbing", "-Z", "concrete-playback",
-               "--concrete-playback=print", "--exact", "--harness", hid] + list(prop.get("kani_flags", []))
+               "--concrete-playback=print", "--exact", "--harness", hid] + list((flags_of or {}).get(hid, prop.get("kani_flags", [])))
         env["VERIF_BUDGET"] = "3" if tier == "thorough" else "2"
-        rc, out, wall = vlib.sh(cmd, cwd=crate, timeout=prop.get("playback_timeout", 300), env=env)
+        rc, out, wall = vlib.sh(cmd, cwd=crate, timeout=prop.get("playback_timeout", 240), env=env)
         if rc == 124:
             rep["counterexample_note"] = "counterexample extraction (second Kani run with --concrete-playback) exceeded its time limit; the failed obligation above is from the main run"
         tests = re.findall(r"```\s*\n(.*?)```", out, re.S)
@@ -175,9 +175,12 @@ def main(argv):
         if fast:
             groups.append(([h for h in harnesses if h in fast], flags + list(P._FAST)))
         data, out, wall, cmds = None, "", 0.0, []
+        flags_of = {}
         for hs, fl in groups:
             if not hs:
                 continue
+            for h in hs:
+                flags_of[h] = fl
             rc, o, w, d, cmd = vlib.run_kani(crate, hs, jobs, ht, fl, env_extra=kenv)
             out += o; wall += w; cmds.append(cmd)
             if d is None:
@@ -236,6 +239,7 @@ def main(argv):
         crate = None
     # ---- decide -------------------------------------------------------------------------------
     rc_exit = 0
+    flags_of = locals().get("flags_of", {})
     kf = known_findings(pid)
     new_failed = []
     for f in failed:
@@ -245,7 +249,7 @@ def main(argv):
         else:
             new_failed.append(f)
     if new_failed:
-        ev["violations"] = report_violation(pid, tier, crate, new_failed, "", prop)
+        ev["violations"] = report_violation(pid, tier, crate, new_failed, "", prop, flags_of)
         rc_exit = 1
     elif undecided:
         rc_exit = 2
